@@ -495,3 +495,54 @@ Definition ed_b_dup (old : ed_bpdu) (mid' smax : Z) (t : bytes) (drop_ : option 
       os <- ed_b_opts old ;;
       ed_b_readd p1 (filter (fun o => negb (existsb (Z.eqb (fst o)) dl)) os)
   end.
+
+(* ---- the builder calls at byte level: coap_pdu_init, coap_add_token, coap_add_option,
+        coap_add_data (what a "freshly built" message is made with) ---- *)
+
+Definition ed_b_init (ty code mid max : Z) : ed_bpdu := mkEb ty code mid [] 0 0 0 0 max.
+
+(* coap_add_data -> coap_add_data_after: coap_pdu_resize(used_size + len + 1), marker, payload *)
+Definition ed_b_add_data (p : ed_bpdu) (d : bytes) : option (bool * ed_bpdu) :=
+  match d with
+  | [] => Some (true, p)
+  | _ =>
+      if negb (eb_data p =? 0) then Some (false, p) else
+      let used := ed_used p in
+      if negb (ed_fits (eb_max p) (used + len d + 1)) then Some (false, p) else
+      s <- ed_bwrite (ed_grow (eb_buf p) (len d + 1)) used (PAYLOAD_START :: d) ;;
+      Some (true, ed_set_buf p s (used + 1))
+  end.
+
+Definition ed_b_build_op (p : ed_bpdu) (o : bop) : option (bool * ed_bpdu) :=
+  match o with
+  | OpToken t => ed_b_add_token p t
+  | OpOpt n v =>
+      (* coap_add_option: refused once there is payload *)
+      if negb (eb_data p =? 0) then Some (false, p) else ed_b_add_internal p n v
+  | OpData d => ed_b_add_data p d
+  end.
+
+Fixpoint ed_b_build (p : ed_bpdu) (ops : list bop) : option (list bool * ed_bpdu) :=
+  match ops with
+  | [] => Some ([], p)
+  | o :: tl =>
+      r <- ed_b_build_op p o ;;
+      rs <- ed_b_build (snd r) tl ;;
+      Some (fst r :: fst rs, snd rs)
+  end.
+
+(* ---- coap_update_token on a PDU that belongs to a session and has an encoded header
+        (pdu->hdr_size && pdu->session): the header in memory, token - hdr_size .. token ----
+   [h] = the header bytes before the call.  The C re-encodes the header when the stored
+   e_token_length changed; on the used_size == 0 path (coap_add_token) the repaired code
+   re-encodes when a token was added, the pinned code ([fixed] = false) never did. *)
+Definition ed_b_token_hdr_gen (fixed : bool) (pr : proto) (h : bytes) (p : ed_bpdu) (t : bytes)
+  : option (bool * ed_bpdu * bytes) :=
+  r <- ed_b_token p t ;;
+  if negb (fst r) then Some (r, h) else
+  let reenc :=
+    if ed_used p =? 0 then fixed && negb (eb_etl (snd r) =? 0)
+    else negb (eb_etl p =? eb_etl (snd r)) in
+  if reenc then m <- ed_abs (snd r) ;; Some (r, header pr m) else Some (r, h).
+
+Definition ed_b_token_hdr := ed_b_token_hdr_gen true.
